@@ -3,7 +3,10 @@ package props
 import (
 	"bytes"
 	"fmt"
+	"io"
 	"math/big"
+	"runtime"
+	"sync"
 
 	secp256k1 "gitlab.com/yawning/secp256k1-voi"
 	"gitlab.com/yawning/secp256k1-voi/secec"
@@ -18,7 +21,7 @@ func init() { Register("C14", runC14) }
 
 func runC14(r *mon.Run) {
 	n := bigN
-	for _, c := range []string{"c14:Py-even,Ry-even", "c14:Py-even,Ry-odd", "c14:Py-odd,Ry-even", "c14:Py-odd,Ry-odd", "c14:aux=zero", "c14:aux=ones", "c14:msglen=0", "c14:msglen!=32",
+	for _, c := range []string{"c14:Py-even,Ry-even", "c14:Py-even,Ry-odd", "c14:Py-odd,Ry-even", "c14:Py-odd,Ry-odd", "c14:aux=zero", "c14:aux=ones", "c14:aux=one-hot-byte", "c14:aux=only-word-0", "c14:aux=only-word-1", "c14:aux=only-word-2", "c14:aux=only-word-3", "c14:aux=one-word-zero", "c14:concurrent-sign", "c14:msglen=0", "c14:msglen!=32",
 		"c14:reader:fail<32", "c14:reader:chunks", "c14:frompoint:odd-y", "c14:frompoint:even-y", "c14:frompoint:identity", "c14:frompoint:rep-nontrivial", "c14:fromECDSA"} {
 		r.Require(c)
 	}
@@ -37,6 +40,27 @@ func runC14(r *mon.Run) {
 		case 1:
 			aux = bytes.Repeat([]byte{0xff}, 32)
 			w.Class("c14:aux=ones")
+		case 2:
+			// structured aux (BIP-340 allows a counter or timestamp): mostly zero with a
+			// non-zero byte / 64-bit word at one position, in either byte order position
+			aux = make([]byte, 32)
+			switch rng.Intn(3) {
+			case 0:
+				aux[(i/6)%32] = byte(1 + rng.Intn(255))
+				w.Class("c14:aux=one-hot-byte")
+			case 1:
+				wd := (i / 6) % 4
+				rng.Fill(aux[8*wd : 8*wd+8])
+				aux[8*wd] |= 1
+				w.Class(fmt.Sprintf("c14:aux=only-word-%d", wd))
+			default:
+				wd := (i / 6) % 4
+				rng.Fill(aux)
+				for j := 8 * wd; j < 8*wd+8; j++ {
+					aux[j] = 0
+				}
+				w.Class("c14:aux=one-word-zero")
+			}
 		}
 		ml := []int{32, 0, 1, 31, 33, 64, 100, 300}[i%8]
 		if i%5 == 0 {
@@ -238,6 +262,74 @@ func runC14(r *mon.Run) {
 		checkSchnorrPub(w, "GenerateSchnorrKey", sk.PublicKey(), oracle.MulG(d))
 		_ = secec.PrivateKeySize
 	})
+
+	// --- the signature is a function of (key, aux, message) also when one key object signs
+	// from several goroutines at once: every call has its own aux and message; the entropy
+	// reader yields the processor between handing out the bytes and returning, which widens
+	// the window between "aux read" and "aux used" (per-key scratch state shows here).
+	r.Seq("c14/concurrent-sign", r.N(6, 60), func(w *mon.W, i int) {
+		rng := w.Rng
+		d, _ := keyValue(rng)
+		sk, err := bitcoin.NewSchnorrPrivateKey(b32(d))
+		if err != nil {
+			w.Fail("c14/NewSchnorrPrivateKey", err.Error())
+			return
+		}
+		const G, per = 8, 12
+		type job struct{ aux, msg, sig []byte }
+		jobs := make([][]job, G)
+		for g := range jobs {
+			for j := 0; j < per; j++ {
+				jobs[g] = append(jobs[g], job{aux: rng.Bytes(32), msg: rng.Bytes(rng.Intn(80))})
+			}
+		}
+		var wg sync.WaitGroup
+		gate := make(chan struct{})
+		for g := 0; g < G; g++ {
+			wg.Add(1)
+			go func(g int) {
+				defer wg.Done()
+				<-gate
+				for j := range jobs[g] {
+					sig, err := sk.Sign(&yieldingReader{data: jobs[g][j].aux}, jobs[g][j].msg, nil)
+					if err == nil {
+						jobs[g][j].sig = sig
+					}
+				}
+			}(g)
+		}
+		close(gate)
+		wg.Wait()
+		w.ClassN("c14:concurrent-sign", G*per)
+		for g := range jobs {
+			for j, jb := range jobs[g] {
+				w.Case(true, []byte("concurrent-sign"), b32(d), jb.aux, jb.msg)
+				if want := oracle.BIP340Sign(d, jb.aux, jb.msg); !bytes.Equal(jb.sig, want) {
+					w.Fail("c14/concurrent-sign", fmt.Sprintf("goroutine %d call %d: Sign on a shared key object returned %x, BIP-340 Sign(d, aux, m) for THIS call's aux and message is %x", g, j, jb.sig, want), "d", hb(d), "aux", hx(jb.aux), "msg", hx(jb.msg))
+					return
+				}
+			}
+		}
+	})
+}
+
+// yieldingReader hands out its bytes and then yields the processor a few times
+// before returning, so that other goroutines run between the read and its use.
+type yieldingReader struct {
+	data []byte
+	pos  int
+}
+
+func (y *yieldingReader) Read(p []byte) (int, error) {
+	n := copy(p, y.data[y.pos:])
+	y.pos += n
+	for i := 0; i < 4; i++ {
+		runtime.Gosched()
+	}
+	if n == 0 {
+		return 0, io.EOF
+	}
+	return n, nil
 }
 
 // checkSchnorrPub asserts the x-only key exposes the even-y point of p
